@@ -5138,20 +5138,36 @@ class DfaCompileCtx:
                 def consider(transition):
                     return not any(x.get_target_override_mode() in [ActionOverrideMode.ALWAYS_GOTO_OTHER, ActionOverrideMode.ALWAYS_GOTO_UNDEFINED] and transition.target not in x.get_target_override_targets() for x in transition.actions)
 
+                def redirects(action):
+                    # states a break sends control to, also when the break sits inside an action-only if
+                    if action.get_target_override_mode() == ActionOverrideMode.ALWAYS_GOTO_OTHER:
+                        return action.get_target_override_targets()
+                    if isinstance(action, ConditionalAction):
+                        return [tgt for sub in action.embeds() for tgt in redirects(sub)]
+                    return []
+
+                def successors(t):
+                    # where control may go next without consuming: wherever a break on the transition leads, and the
+                    # transition's own target unless an action always leaves for somewhere else
+                    result = [tgt for x in t.actions for tgt in redirects(x)]
+                    if consider(t):
+                        result.append(t.target)
+                    return result
+
                 def aux(x, symbol):
                     if isinstance(x, DFConditionPoint):
                         for i in x.transitions:
-                            if i.target in visited:
-                                continue
-                            if consider(i):
-                                visited.add(i.target)
-                                aux(i.target, symbol)
+                            for tgt in successors(i):
+                                if tgt not in visited:
+                                    visited.add(tgt)
+                                    aux(tgt, symbol)
                     else:
                         real_target = x[symbol]
-                        if real_target and real_target.is_fallthrough and consider(real_target):
-                            if real_target.target not in visited:
-                                visited.add(real_target.target)
-                                aux(real_target.target, symbol)
+                        if real_target and real_target.is_fallthrough:
+                            for tgt in successors(real_target):
+                                if tgt not in visited:
+                                    visited.add(tgt)
+                                    aux(tgt, symbol)
 
                 # follow each symbol on its own: the states further along may split the set of symbols
                 # this transition falls through on between several of their transitions
